@@ -53,3 +53,26 @@ package reg
 //@   ensures result-truthful: err == nil ==> dRet.Digest == $digestAt(digester, $hv) && dRet.Size == chunkStart
 //@   ensures declared-digest-honoured: err == nil && $valid(old(d).Digest) ==> dRet.Digest == old(d).Digest
 //@   ensures declared-size-honoured: err == nil && old(d).Size != 0 ==> dRet.Size == old(d).Size
+
+// ---- C05: BlobPut dispatcher ----
+// the single-request upload is only used with a complete, valid descriptor (the registry then
+// verifies digest and length of the body it receives); the chunked fall-back after a failed
+// single-request upload starts only after the caller's stream was rewound to offset 0.
+//@ callsite (*Reg).blobPutUploadFull(ctx, r, d, putURL, rdr)
+//@   prop C05
+//@   name blobPutUploadFull/BlobPut
+//@   in ~/scheme/reg
+//@   infunc \)\.BlobPut$
+//@   requires only-with-valid-descriptor: caller.validDesc && d == old(caller.d) && rdr == old(caller.rdr)
+//@ callsite (*Reg).blobPutUploadChunked(ctx, r, d, putURL, rdr)
+//@   prop C05
+//@   name blobPutUploadChunked/BlobPut
+//@   in ~/scheme/reg
+//@   infunc \)\.BlobPut$
+//@   requires stream-at-start: !caller.tryPut || $rewound
+//@   requires callers-descriptor-and-stream: d == old(caller.d) && rdr == old(caller.rdr)
+//@ func (*Reg).BlobPut(ctx, r, d, rdr) (dOut, err)
+//@   prop C05
+//@   entry-assume !$rewound
+//@   ensures declared-digest-honoured: err == nil && $valid(old(d).Digest) ==> dOut.Digest == old(d).Digest
+//@   ensures declared-size-honoured: err == nil && old(d).Size != 0 ==> dOut.Size == old(d).Size
